@@ -18,6 +18,15 @@ Emit ==
       nameTuples == {Cyc(keys, n, 1) : n \in 1..9} \cup {Cyc(keys, n, 2) : n \in 2..9}
                     \cup {Rev([j \in 1..Len(l) |-> l[j].key]), <<keys[1], "zz">>, <<"zz">>}
       typeTuples == {Cyc(types, n, 1) : n \in 1..9} \cup {Cyc(types, n, 3) : n \in 2..9} \cup {<<types[1], "uintptr">>}
+      \* the embedded struct types of the shape unfolded on their own, and a second outer struct that embeds the first of them
+      \* behind an int64 (another offset): what the process has unfolded before must not matter
+      LJ(x) == LET lx == Listing(x) IN [j \in 1..Len(lx) |-> [key |-> lx[j].key, name |-> lx[j].name, id |-> lx[j].id, ty |-> lx[j].ty,
+                                                              byval |-> lx[j].byval, abs |-> lx[j].abs, path |-> NamePath(x, lx[j].pos)]]
+      embs == Structs(sh)
+      firstEmb == {i \in 1..Len(sh) : IsEmb(sh[i])}
+      outer2 == IF firstEmb = {} THEN <<>>
+                ELSE LET i == CHOOSE i \in firstEmb : \A k \in firstEmb : i <= k IN
+                     << [name |-> "Pad0", tag |-> NoTag, ty |-> "int64", emb |-> "no", sub |-> <<>>], sh[i] >>
   IN PrintT(ToJson(
        [t |-> "shape", ck |-> Checksum(sh), boundary |-> (WithBoundary /\ sh \in BoundarySetHseq),
         fields |-> sh, size |-> SSize(sh), align |-> SAlign(sh),
@@ -26,5 +35,7 @@ Emit ==
         names |-> SetToSeq({[q |-> k, first |-> FirstKey(l, k)] : k \in KeysOf(l) \cup {"zz"}}),
         types |-> SetToSeq({[q |-> ty, first |-> FirstType(l, ty)] : ty \in TypesOf(l) \cup {"uintptr"} \cup CloseAll(TypesOf(l))}),
         sel |-> SetToSeq({[names |-> ns, ix |-> [i \in 1..Len(ns) |-> FirstKey(l, ns[i])]] : ns \in nameTuples}),
-        selt |-> SetToSeq({[types |-> ts, ix |-> [i \in 1..Len(ts) |-> FirstType(l, ts[i])]] : ts \in typeTuples})]))
+        selt |-> SetToSeq({[types |-> ts, ix |-> [i \in 1..Len(ts) |-> FirstType(l, ts[i])]] : ts \in typeTuples}),
+        subs |-> SetToSeq({[ty |-> x.ty, listing |-> LJ(x.sub)] : x \in embs}),
+        outer2 |-> [fields |-> outer2, listing |-> IF outer2 = <<>> THEN <<>> ELSE LJ(outer2)]]))
 ====
